@@ -13,6 +13,7 @@
 -/
 import WS.Driver.Util
 import WS.Model.App
+import WS.Spec.AppTrace
 namespace WS.Driver.App
 open WS WS.Driver WS.Model.App
 
@@ -23,6 +24,7 @@ def exnOut : AExn → String
   | .transport => "TRANSPORT" | .badstatus n => s!"BADSTATUS({n})" | .wsgeneric => "WSGENERIC"
   | .attrError => "INTERNAL(AttributeError)" | .user cb k => s!"USER({cb.name}#{k})" | .ki => "KI"
   | .frame b => s!"FRAME({bytesOut b})"
+  | .other k => k
 
 def argOut : Arg → String
   | .none => "N" | .int n => s!"i{n}" | .str b => "s" ++ bytesOut b | .bytes b => "b" ++ bytesOut b
@@ -103,7 +105,81 @@ def parseCfg (s : String) (plan : Cb → List Act) : Option Cfg :=
     | _, _, _, _, _, _, _ => none
   | _ => none
 
+/-! ### parsing a trace back (for the spec ops applied to the real implementation's trace) -/
+
+def cbOfName (n : String) : Option Cb := Cb.all.find? fun c => c.name == n
+
+def inParens (s : String) (pre : String) : Option String :=
+  if s.startsWith pre && s.endsWith ")" then
+    some (String.ofList ((s.toList.drop pre.length).dropLast))
+  else none
+
+def parseExn (s : String) : AExn :=
+  if s == "CLOSED" then .closed else if s == "PROTO" then .proto else if s == "PAYLOAD" then .payload
+  else if s == "TIMEOUT" then .timeout else if s == "TRANSPORT" then .transport
+  else if s == "WSGENERIC" then .wsgeneric else if s == "KI" then .ki
+  else if s == "INTERNAL(AttributeError)" then .attrError
+  else match inParens s "BADSTATUS(" with
+    | some n => match n.toNat? with | some n => .badstatus n | none => .other s
+    | none => match inParens s "FRAME(" with
+      | some h => match parseBytes h with | some b => .frame b | none => .other s
+      | none => match inParens s "USER(" with
+        | some u => match u.splitOn "#" with
+          | [n, k] => match cbOfName n, k.toNat? with
+            | some c, some k => .user c k
+            | _, _ => .other s
+          | _ => .other s
+        | none => .other s
+
+def parseArg (s : String) : Option Arg :=
+  match s.toList with
+  | ['N'] => some .none | ['T'] => some (.bool true) | ['F'] => some (.bool false)
+  | 'i' :: r => (String.ofList r).toNat?.map .int
+  | 's' :: r => (parseBytes (String.ofList r)).map .str
+  | 'b' :: r => (parseBytes (String.ofList r)).map .bytes
+  | 'e' :: r => some (.exn (parseExn (String.ofList r)))
+  | _ => none
+
+def parseEv (parts : List String) : Option Ev :=
+  match parts with
+  | ["cb", n, a] =>
+    match cbOfName n, (if a == "-" then some [] else (a.splitOn ",").mapM parseArg) with
+    | some c, some args => some (.cb c args)
+    | _, _ => none
+  | ["dial", i] => i.toNat?.map .dial
+  | ["sleep", d] => d.toNat?.map .sleep
+  | ["wrote", op, h] => match op.toNat?, parseBytes h with
+    | some op, some b => some (.wrote op b)
+    | _, _ => none
+  | ["sockClosed", i] => i.toNat?.map .sockClosed
+  | ["sockDropped", i] => i.toNat?.map .sockDropped
+  | ["pingStart"] => some .pingStart | ["pingStop"] => some .pingStop
+  | ["ret", b] => some (.returned (b == "1"))
+  | ["raised", e] => some (.raisedOut (parseExn e))
+  | ["blocked"] => some .blocked | ["outOfFuel"] => some .outOfFuel
+  | _ => none
+
+def parseTrace (s : String) : Option Trace :=
+  if s == "-" || s.isEmpty then some [] else
+  (s.splitOn ";").mapM fun item =>
+    match item.splitOn ":" with
+    | t :: rest => match t.toNat?, parseEv rest with
+      | some t, some e => some (t, e)
+      | _, _ => none
+    | [] => none
+
 def ops : List String → Option String
+  | ["s-app", cfg, plan, runs, exact, trace] =>
+    match parsePlan plan with
+    | none => some "bad-plan"
+    | some pl =>
+      match parseCfg cfg pl, parseRuns runs, parseTrace trace with
+      | some c, some rs, some tr =>
+        let v := Spec.AppTrace.checkAll c (exact == "1") rs tr
+        some (if v.isEmpty then "ok" else " ".intercalate v.eraseDups)
+      | none, _, _ => some "bad-cfg"
+      | _, none, _ => some "bad-runs"
+      | _, _, none => some "bad-trace"
   | ["m-app", cfg, plan, runs, sched] =>
     match parsePlan plan with
     | none => some "bad-plan"
